@@ -173,6 +173,12 @@ pub struct World<const N: usize> {
     pub inflight: Vec<u16>,
     pops: u16,
     notify_setting: u16,
+    /// How many times in a row the interrupt switch was last set to the same value (capped at 3).
+    /// Part of the state key: an implementation may (wrongly) count such calls, which no
+    /// device-visible or snapshot field would show, so "off, off, on" must not be merged with
+    /// "off, on" by the exact-state de-duplication.
+    notify_streak: u8,
+    last_switch: u16,
     adds: u32,
     /// The history ended (a call broke its precondition and the library panicked or accepted it).
     dead: bool,
@@ -213,6 +219,8 @@ impl<const N: usize> World<N> {
             inflight: vec![],
             pops: 0,
             notify_setting: 0,
+            notify_streak: 0,
+            last_switch: 0,
             adds: 0,
             dead: false,
             tracer: None,
@@ -551,8 +559,15 @@ impl<const N: usize> World<N> {
                 if check {
                     self.check_c02_other("set_dev_notify");
                 }
+                let new_setting = if en { 0 } else { 1 };
+                if self.notify_streak > 0 && new_setting == self.last_switch {
+                    self.notify_streak = (self.notify_streak + 1).min(3);
+                } else {
+                    self.notify_streak = 1;
+                }
+                self.last_switch = new_setting;
                 if !self.cfg.event_idx {
-                    self.notify_setting = if en { 0 } else { 1 };
+                    self.notify_setting = new_setting;
                 }
             }
             _ => {}
@@ -699,6 +714,14 @@ impl<const N: usize> World<N> {
                     viol("C04", "refused-add-shared", format!("add({},{}) with {} of {} descriptors held must be refused ({:?}) but buffers were shared with the device", ni, no, held, N, e));
                 }
                 viol("C03", "add-not-refused", format!("add({},{}) with {} of {} descriptors held returned Ok({}) but must be refused with {:?}", ni, no, held, N, t, e));
+                // The entry is in the ring all the same: the device will fetch it, and it must
+                // stay intact until then like any other (C02 keeps judging it).
+                self.adds += 1;
+                let chain = self.oracle_add(t, prev_avail, &ins, &outs, log_before, false);
+                let heldn = chain.as_ref().map(|c| c.descs.len()).unwrap_or(if self.cfg.indirect { 1 } else { n });
+                let chain = chain.unwrap_or(Chain { head: t, descs: vec![], elems: vec![], indirect: None });
+                self.outs.push(Out { token: t, ins: std::mem::take(&mut ins), outs: std::mem::take(&mut outs), pos, chain, completed: None, held: heldn });
+                self.inflight.push(t);
             }
             (Ok(()), Err(got)) => {
                 viol("C03", "add-spuriously-refused", format!("add({},{}) with {} of {} descriptors held was refused with {:?}", ni, no, held, N, got));
@@ -1024,9 +1047,11 @@ impl<const N: usize> World<N> {
         }
         let token = self.inflight.remove(j);
         let old = self.refq.used_idx;
-        let len = (token as u32) * 7 + (old as u32) * 13 + 1;
-        let seed = (old as u8).wrapping_mul(17).wrapping_add(token as u8);
         let oi = self.outs.iter().position(|o| o.token == token).unwrap();
+        // The recorded length is an arbitrary number the device chose; for entries published at an
+        // even position it is larger than any chain (the queue returns it as it is).
+        let len = (token as u32) * 7 + (old as u32) * 13 + 1 + if self.outs[oi].pos % 2 == 0 { 4096 } else { 0 };
+        let seed = (old as u8).wrapping_mul(17).wrapping_add(token as u8);
         // Write the pattern into every device-writable element.
         let elems = self.outs[oi].chain.elems.clone();
         let mut widx = 0;
@@ -1073,6 +1098,11 @@ impl<const N: usize> World<N> {
             }
             Ok(Err(e)) => {
                 viol("C03", "pop-refused", format!("pop_used({}) of the next completion failed with {:?}", token, e));
+                if check {
+                    // C02: whatever the call returned, entries that are available and not yet
+                    // completed must have stayed intact at every instant.
+                    self.check_c02_other("pop_used (failed)");
+                }
                 // C04: whatever the call returned, a completion that has been consumed (the
                 // driver moved past the used element) must have unshared its buffers.
                 let used_pos_after = self.q.as_ref().map(|q| q.verif_snapshot().last_used_idx);
@@ -1350,6 +1380,7 @@ impl<const N: usize> World<N> {
         h.u64(self.refq.last_avail.wrapping_sub(off) as u64);
         h.u64(self.refq.used_idx.wrapping_sub(off) as u64);
         h.u64(self.notify_setting as u64);
+        h.u64(self.notify_streak as u64 | (self.last_switch as u64) << 8);
         for o in &self.outs {
             h.u64(o.token as u64 | (o.ins.len() as u64) << 16 | (o.outs.len() as u64) << 24 | (o.pos.wrapping_sub(off) as u64) << 32);
             h.u64(match o.completed {
@@ -1409,8 +1440,10 @@ impl<const N: usize> BfsModel for QModel<N> {
         for (i, &a) in history.iter().enumerate() {
             let last = i + 1 == history.len();
             w.step(a, last);
-            if !last && crate::engine::chooser::has_violation() {
-                // A prefix that was clean when explored now violates: nondeterminism.
+            if !last && crate::engine::chooser::has_violation_of(crate::util::panic_prop()) {
+                // A prefix that was clean (for the property this check decides) when explored now
+                // violates it: nondeterminism. Violations of the other queue properties do not
+                // end the history: the exploration goes on beyond them.
                 break;
             }
         }
